@@ -33,11 +33,9 @@ func (w *writer) Write(p []byte) (n int, err error) {
 		if w.vx.caps.synchronizedUpdate {
 			w.buf.WriteString(decset(synchronizedUpdate))
 		}
-		if w.vx.cursorLast.visible && w.vx.cursorNext.visible {
-			// Hide cursor if it's visible, and only write this if
-			// the next cursor is visible also. we'll explicitly
-			// turn the cursor off in the render loop if there is a
-			// change to the state of cursor visibility
+		if w.vx.cursorLast.visible {
+			// Hide cursor if it's visible. Flush shows it again if
+			// it should still be visible after this frame
 			w.buf.WriteString(decrst(cursorVisibility))
 		}
 	}
@@ -85,6 +83,10 @@ func (w *writer) Flush() (n int, err error) {
 		switch {
 		case !w.vx.cursorNext.visible && w.vx.cursorLast.visible:
 			return w.w.Write([]byte(decrst(cursorVisibility)))
+		case !w.vx.cursorNext.visible:
+			// The cursor is hidden and stays hidden, whatever position
+			// or style was requested before it was hidden
+			return 0, nil
 		case w.vx.cursorNext.row != w.vx.cursorLast.row:
 			return w.w.Write([]byte(w.vx.showCursor()))
 		case w.vx.cursorNext.col != w.vx.cursorLast.col:
